@@ -53,13 +53,13 @@ FRAMEWORK_CLAUSES = {"wellFormed", "endsOnManifold"}
 
 def _tier(tier):
     if tier == "quick":
-        return dict(models=[("main", dict(Kinds='{"PJ", "AT", "TB"}', MaxT=5, DSet="{1, 2}", LSet="{3, 4, 5}", JBack=2,
-                                          JFwd=3, RSet="{2, 100}", MCSet="{0, 1, 200}", TDen=4)),
+        return dict(models=[("main", dict(Kinds='{"PJ", "AT", "TB"}', MaxT=6, DSet="{1, 2, 3}", LSet="{3, 4, 5}", JBack=2,
+                                          JFwd=3, RSet="{1, 2, 100}", MCSet="{0, 1, 200}", TDen=4)),
                             ("wander", dict(Kinds='{"PJ"}', MaxT=5, DSet="{3}", LSet="{6}", JBack=4, JFwd=6, RSet="{1}",
                                             MCSet="{0}", TDen=4))])
     return dict(models=[("main", dict(Kinds='{"PJ", "AT", "TB"}', MaxT=8, DSet="{1, 2, 3}", LSet="{3, 4, 5, 6}", JBack=3,
                                       JFwd=4, RSet="{1, 2, 3, 100}", MCSet="{0, 1, 2, 200}", TDen=8)),
-                        ("pj-wide", dict(Kinds='{"PJ"}', MaxT=9, DSet="{1, 2, 4}", LSet="{3, 5, 7}", JBack=4, JFwd=5,
+                        ("pj-wide", dict(Kinds='{"PJ"}', MaxT=10, DSet="{1, 2, 3, 4}", LSet="{3, 4, 5, 6, 7}", JBack=4, JFwd=5,
                                          RSet="{1}", MCSet="{0}", TDen=8)),
                         ("wander", dict(Kinds='{"PJ"}', MaxT=7, DSet="{3}", LSet="{5, 6}", JBack=5, JFwd=7, RSet="{1}",
                                         MCSet="{0}", TDen=4))])
@@ -313,13 +313,19 @@ def run(tier):
         ck.set("planner_status", summ["plan_status"])
         ck.set("planner_paths", summ["paths_per_planner"])
         ck.set("children_died", summ["died"])
+        # planners that crashed inside their own data structures (no constrained-space frame on the stack): not a
+        # verdict of this property, listed for the report
+        died = [d["job"] for d in _lines(out, "DIED")]
+        ck.set("planner_runs_died_in_planner_code", died[:20])
+        for d in died[:5]:
+            log("[C16] note: planner run died in planner code (not judged here): %s" % json.dumps(d))
         cells = summ["cells"]
         manifolds = sorted({k.split("/", 1)[1] for k in cells})
         missing = ["%s/%s:%s" % (sp, mf, e) for sp in SPACES for mf in manifolds for e in EVENTS
                    if not cells.get("%s/%s" % (sp, mf), {}).get(e)]
         noplan = [sp for sp in SPACES if not any(cells.get("%s/%s" % (sp, mf), {}).get("PlannerPath") for mf in manifolds)]
         nopath = [p for p, n in summ["paths_per_planner"].items() if n == 0]
-        if (missing or noplan or len(manifolds) < 8 or len(summ["paths_per_planner"]) < 10) and not summ["died"]:
+        if (missing or noplan or len(manifolds) < 8 or len(summ["paths_per_planner"]) < 10) and summ["died"] == len(died):
             raise FrameworkError("vacuity gate: space kind x manifold x event cells never recorded: %s %s %s"
                                  % (missing[:10], noplan, nopath))
         ck.set("manifolds", manifolds)
@@ -329,7 +335,7 @@ def run(tier):
         ev = next((e for e in events if e.get("e") == "PlannerPath" and e["sp"] == "TB" and e["hasPath"] == 1), None)
         ck.sample({"kind": "recorded planner path", "event": ev})
     ck.set("clause_antecedent_counts", counts)
-    if not ck.violations and not ck.known_hits:
+    if not ck.violations:
         idle = [c for c, n in counts.items() if n == 0]
         if idle:
             raise FrameworkError("vacuity gate: clauses never evaluated non-trivially: %s" % idle)
